@@ -43,6 +43,8 @@ static const char* K_CTOR = "copyctor-default-constructs-members"; // copy const
 
 static const char* K_TOL = "copy-shares-tolerances";   // operator=: _tolerances = rhs._tolerances shares ONE Tolerances object between source and copy
 
+static const char* K_FACTOR = "copy-drops-factorization";   // operator= copies the LU factorization and clears it again (setBasisSolver): a warm-started solve of the copy refactorizes while the source continues with its updated factors (last-bit differences)
+
 static bool trace()
 {
    static int t = getenv("VF_TRACE") ? 1 : 0;
@@ -1207,6 +1209,12 @@ static Verdict runCopy(const Case& c)
       if(hadBasis) rebindBasis = true;
       else side = 0;
       e.count(std::string("excluded_known.") + K_MATRIX + (hadBasis ? ".rebound" : ".side_swapped"));
+   }
+   if(knownKey(K_FACTOR) && !unloaded && side == 1 && kind != 3 && hadBasis && !rebindBasis)
+   {
+      // the copy has no factorization: setBasis(getBasis()) on all objects makes source and twin refactorize as well
+      rebindBasis = true;
+      e.count(std::string("excluded_known.") + K_FACTOR);
    }
    heapGarbage(gr ? (int) gr->i(0) : 0, gr ? (int) gr->i(1) : 5, keep);
    // ---- the copy
